@@ -200,7 +200,7 @@ pub fn gen_plan(property: &str, seed: u64, index: u64, tier: Tier) -> Plan {
                 // fresh context per search, sparse board, deeper
                 let (_, s) = choose_start(&mut rng, &[(StartKind::Endgame, 1)]);
                 let roll = rng.below(8);
-                start = if roll < 2 { Pos::from_fen(*rng.pick(&TERMINAL_FENS[..])).unwrap() } else if roll < 4 { crate::gen::promotion_ending(&mut rng) } else { s };
+                start = if roll < 2 { Pos::from_fen(*rng.pick(&TERMINAL_FENS[..])).unwrap() } else if roll == 2 { crate::gen::promotion_ending(&mut rng) } else if roll == 3 { crate::gen::stalemate_trick_ending(&mut rng) } else { s };
                 depth = if roll >= 2 && roll < 4 { rng.range(2, 4) as u8 } else if thorough { rng.range(3, 5) as u8 } else { rng.range(3, 4) as u8 };
                 knobs.insert("reuse".into(), 0);
                 scenario = "fresh-context-endgame";
@@ -214,7 +214,7 @@ pub fn gen_plan(property: &str, seed: u64, index: u64, tier: Tier) -> Plan {
                 // one context reused over the successive positions of a game
                 let (_, s) = choose_start(
                     &mut rng,
-                    &[(StartKind::Initial, 2), (StartKind::Special, 3), (StartKind::Endgame, 3), (StartKind::Random, 3), (StartKind::Suite, 1)],
+                    &[(StartKind::Initial, 2), (StartKind::Special, 3), (StartKind::Endgame, 3), (StartKind::Random, 3), (StartKind::Suite, 1), (StartKind::SingleReply, 2)],
                 );
                 start = s;
                 let crowded = start.piece_count() > 14;
@@ -264,7 +264,8 @@ pub fn gen_plan(property: &str, seed: u64, index: u64, tier: Tier) -> Plan {
                 if pos.half + depth as u32 + 2 >= 100 {
                     break;
                 }
-                let pol = if lookalike { Policy::Lookalike } else if rng.chance(1, 2) { Policy::Spicy } else { Policy::Uniform };
+                let via_game = knobs.get("via_game").copied().unwrap_or(0) == 1;
+                let pol = if lookalike { Policy::Lookalike } else if via_game && rng.chance(2, 3) { Policy::Squeeze } else if rng.chance(1, 2) { Policy::Spicy } else { Policy::Uniform };
                 let k = choose_move_seen(&mut rng, &pos, &legal, pol, None, &mut seen);
                 ops.push(Op::Make(k as u32));
                 pos = pos.make(&legal[k]);
@@ -275,7 +276,7 @@ pub fn gen_plan(property: &str, seed: u64, index: u64, tier: Tier) -> Plan {
             lru = *rng.pick(&[1usize, 2, 7, 64, 4096, 100_000]);
             let (kind, s) = choose_start(
                 &mut rng,
-                &[(StartKind::Initial, 3), (StartKind::Suite, 4), (StartKind::Special, 3), (StartKind::Random, 3), (StartKind::Endgame, 1), (StartKind::Terminal, 2)],
+                &[(StartKind::Initial, 3), (StartKind::Suite, 4), (StartKind::Special, 3), (StartKind::Random, 3), (StartKind::Endgame, 1), (StartKind::Terminal, 2), (StartKind::SingleReply, 1)],
             );
             start = if rng.chance(1, 8) { crate::gen::random_setup(&mut rng, 2) } else { s };
             scenario = "count-positions";
